@@ -183,9 +183,13 @@ func (r *runner) userOf(f string) map[string]string {
 }
 
 // learn scans what the fronts and the stores saw since the step began and extends the symbol table.
-func (r *runner) learn(logFrom int, evA, evB int) {
+func (r *runner) learn(s step, logFrom int, evA, evB int) {
 	for _, e := range r.w.A.vs.eventsSince(evA) {
-		if e.Op == "set" && e.Class == "oauth/client_state" {
+		if e.Op == "set" && e.Class == "oauth/client_state" && s.A == "Land" && r.cs[s.F] == "" {
+			// the landing page makes exactly one client state: the one of the flow whose token was redeemed
+			r.cs[s.F] = e.Ref
+			r.born["cs/"+s.F] = e.VNow
+		} else if e.Op == "set" && e.Class == "oauth/client_state" {
 			var s struct {
 				SessionID string `json:"session_id"`
 			}
@@ -368,6 +372,11 @@ func (r *runner) do(i int, s step) (string, error) {
 			return "", err
 		}
 		out = r.classify(pg.Status, pg.Location)
+		if out == "to-callback-code" && r.cs[s.R] == "" {
+			if u, err := url.Parse(pg.Location); err == nil {
+				r.cs[s.R] = u.Query().Get("state") // (normally learnt from the client's session at the landing)
+			}
+		}
 	case "Callback":
 		q := url.Values{"code": {r.code[s.C]}, "state": {r.cs[s.S]}}
 		pg, err = r.browser(s.B).get(w.A.base(s.Tn) + "/callback?" + q.Encode())
@@ -477,7 +486,7 @@ func (r *runner) do(i int, s step) (string, error) {
 			}
 		}
 	}
-	r.learn(logFrom, evA, evB)
+	r.learn(s, logFrom, evA, evB)
 	r.o.afterStep(i, s, out, pg, logFrom, before)
 	return out, nil
 }
